@@ -27,7 +27,7 @@ RULE = ("scenario = version (none / supported / cutoff +-1 day,month,year / rand
         "non-trivial = at least one batch array was processed; distinct also varies with the version stratum")
 PROBES = ["batch_rejected", "batch_accepted", "version_change_same_instant_as_batch", "mode_flipped_mid_connection",
           "invalid_member_dropped", "empty_batch", "handshake_set_version", "cutoff_neighbour_version"]
-TIERS = {"quick": {"runs": 3000, "wall": 45.0}, "thorough": {"runs": 150000, "wall": 540.0}}
+TIERS = {"quick": {"runs": 15000, "wall": 45.0}, "thorough": {"runs": 1000000, "wall": 560.0}}
 ASSUMPTIONS = [
     "the decision function is sampled (stratified, cutoff-biased), not exhausted over the 2.1M-string grid: exhaustive enumeration is outside this technique",
     "a version change in the same virtual instant as a batch line accepts both modes for that line",
